@@ -72,6 +72,11 @@ def run_family(ctx, oracle, sig, use_model=True, apis=("validate", "normalized")
                         continue
                     if r["r"] == "raise":
                         dist["raise_%s@%s" % (r["exn"], r["site"])] += 1
+                    if r["r"] == "ok" and nrun.foreign_keys(r.get("document")):
+                        # A-domain: the model's keys are str / int; a rename / keysrules normalization that produces
+                        # another key (None from `default: None` under keysrules, a float, a tuple) leaves the modelled domain
+                        dist["skipped_key_domain"] += 1
+                        continue
                     modelled += 1
                     for which in ("spec", "model"):
                         m = c[which].get(api)
